@@ -4,6 +4,7 @@ package main
 // to the k-th call of a callee or the k-th store to a field).
 
 import (
+	"os"
 	"fmt"
 	"go/token"
 	"go/types"
@@ -154,7 +155,11 @@ func (fr *Frame) assumeInvariant(h *ssa.BasicBlock) {
 	env := fr.headerEnv(h)
 	env.what = fmt.Sprintf("loop %d invariant of %s", fr.loopOrd[h], funcKey(fr.fn))
 	for _, c := range invs {
-		fr.vc.assume(fr.curR, env.evalAssume(c.E).T())
+		t := env.evalAssume(c.E).T()
+		if os.Getenv("GOVC_DEBUG_INV") != "" {
+			fmt.Fprintf(os.Stderr, "INV %s: %s\n", c.Src, t)
+		}
+		fr.vc.assume(fr.curR, t)
 	}
 }
 
